@@ -36,9 +36,65 @@ def run_em(case):
     return [float(x) for x in post]
 
 
+class AppendLog:
+    """Interpreted mode only: records the tuples (row, col, val, key) of every coo_append call of the token driver."""
+    def __init__(self):
+        import vectorizers.token_cooccurrence_vectorizer as mod
+        self.mod, self.log = mod, []
+
+    def __enter__(self):
+        self.orig = self.mod.coo_append
+
+        def rec(coo, tup):
+            self.log.append([int(tup[0]), int(tup[1]), float(tup[2]), int(tup[3])])
+            return self.orig(coo, tup)
+        self.mod.coo_append = rec
+        return self
+
+    def __exit__(self, *a):
+        self.mod.coo_append = self.orig
+
+
+def run_driver(case):
+    """numba_build_skip_grams called directly, with the argument types the vectorizer passes."""
+    import os
+    import numba
+    from vectorizers.token_cooccurrence_vectorizer import numba_build_skip_grams
+    interpreted = os.environ.get("NUMBA_DISABLE_JIT") == "1"
+    if not interpreted and not case.get("jit"):
+        return {"skip": True}        # one compilation per tuple type: only the `jit` family runs compiled
+    blocks = case["blocks"]
+    seqs = numba.typed.List([np.asarray(d, dtype=np.int64) for d in case["docs"]])
+    wsa = np.asarray([b["radii"] for b in blocks], dtype=np.int64)
+    revs = np.asarray([b["rev"] for b in blocks], dtype=bool)
+    kfs = tuple(kernel_fn(case["kernel"]) for _ in blocks)
+    kargs = numba.typed.List([])
+    for b in blocks:
+        t = (None if b["mask"] is None else np.int32(b["mask"]), bool(b["normalize"]), int(b["offset"]))
+        if case["kernel"] == "geometric":
+            t += (float(case["power"]),)
+        kargs.append(t)
+    mix = np.asarray([b["mix"] for b in blocks], dtype=np.float64)
+    sizes = np.asarray(case["array_lengths"], dtype=np.int64)
+    args = (seqs, wsa, revs, kfs, kargs, mix, bool(case["nw"]), int(case["n"]), sizes)
+    log = None
+    if interpreted:
+        with AppendLog() as L:
+            coo = numba_build_skip_grams(*args)
+        log = L.log
+    else:
+        coo = numba_build_skip_grams(*args)
+    out = {"coo": [[[int(c.row[k]), int(c.col[k]), float(c.val[k]), int(c.key[k])] for k in range(int(c.ind[0]))] for c in coo]}
+    if log is not None:
+        out["log"] = log
+    return out
+
+
 def run(case):
     from vectorizers import _window_kernels as wk
     kind = case["kind"]
+    if kind == "drv":
+        return run_driver(case)
     if kind == "em":
         return run_em(case)
     if kind == "win":
